@@ -21,8 +21,14 @@ import (
 //	stale-longer  files exist, longer than the source, with foreign bytes and no metadata
 //	stale-shorter files exist, shorter than the source, foreign bytes, no metadata
 //	<pattern>@N   the pattern as left by a run that used chunk size N instead of this run's
+//	<pattern>!nodata / !short   afterwards the user deleted / halved the output files; the hidden
+//	              metadata directory stays (it then describes bytes that are no longer there)
 func applyPre(p *Prepared, outDir string) {
 	pattern, preChunk := p.Case.Pre, p.Case.Chunk
+	after := ""
+	if i := strings.IndexByte(pattern, '!'); i >= 0 {
+		pattern, after = pattern[:i], pattern[i+1:]
+	}
 	if i := strings.IndexByte(pattern, '@'); i >= 0 {
 		n, _ := strconv.Atoi(pattern[i+1:])
 		pattern, preChunk = pattern[:i], uint32(n)
@@ -90,6 +96,12 @@ func applyPre(p *Prepared, outDir string) {
 		os.WriteFile(fp, data, 0644)
 		if err := sc.Flush(); err != nil {
 			panic(err)
+		}
+		switch after {
+		case "nodata":
+			os.Remove(fp)
+		case "short":
+			os.Truncate(fp, it.Size/2)
 		}
 	}
 }
